@@ -5,7 +5,11 @@ import FsnVerif.Proofs.BitsLemmas
 namespace Bridge
 open Fsn
 
-theorem opHas_eq' (o h : BitVec 32) : Gen.opHas o h = Fsn.opHas o h := rfl
+/-- (the second alternative: `h&o != 0` is the same function as `o&h != 0`) -/
+theorem opHas_eq' (o h : BitVec 32) : Gen.opHas o h = Fsn.opHas o h := by
+  first
+  | rfl
+  | (unfold Gen.opHas Fsn.opHas; rw [BitVec.and_comm])
 
 theorem eventStringShape_eq : Gen.eventStringShape = [
     ("e.renamedFrom != \"\"", "%-13s %q ← %q", ["e.Op.String()", "e.Name", "e.renamedFrom"]),
@@ -22,7 +26,9 @@ open Fsn
 table-driven model, for all 2^32 values: both depend on the value only through the nine
 `Has` tests, and the 512 combinations are checked by the kernel. -/
 theorem opString_eq (o : BitVec 32) : Gen.opString o = Fsn.opString o := by
-  delta Gen.opString Fsn.opString opNames opNameTable Gen.opHas Fsn.opHas Create Remove Write Open Read CloseWrite
+  delta Gen.opString
+  simp only [opHas_eq']
+  delta Fsn.opString opNames opNameTable Fsn.opHas Create Remove Write Open Read CloseWrite
     CloseRead Rename Chmod
   simp only [List.flatMap_cons, List.flatMap_nil]
   generalize ((o &&& 0x1#32) != 0#32) = b1
